@@ -581,8 +581,8 @@ harnesses! {
     tryinsert_n2_k2 [4] => h_try_insert_k(2, tab_of(6), 40, 2); //@ q=C02 to=900
     remove_n2_mixed [4] => h_remove(2, tab_of(6), 40, 0); //@ q=C02 to=600
     remove_entry_n2_collide [4] => h_remove(2, tab_of(0), 40, 1); //@ q=C02 to=600
-    insert_n2_probe_k0 [4] => h_insert_kp(2, tab_of(6), 40, 0, true); //@ t=C02 to=1800 solver=cadical
-    insert_n2_probe_k2 [4] => h_insert_kp(2, tab_of(6), 40, 2, true); //@ t=C02 to=900
+    insert_n2_probe_k0 [4] => h_insert_kp(2, tab_of(6), 40, 0, true); // not registered: the full drain probe after an insert runs out of memory (12 GB) - measured
+    insert_n2_probe_k2 [4] => h_insert_kp(2, tab_of(6), 40, 2, true); // not registered: the full drain probe after an insert runs out of memory (12 GB) - measured
     mutate_n2_probe_k0 [4] => h_mutate_kp(2, tab_of(6), 40, 0, true); //@ t=C02 to=1800 solver=cadical
     tryinsert_n2_probe_k2 [4] => h_try_insert_kp(2, tab_of(6), 40, 2, true); //@ t=C02 to=900
     insert_n1_full [3] => h_insert(1, tab_of(6), 64); //@ to=600 t=C01,C02,C03,C10
@@ -612,8 +612,8 @@ harnesses! {
     remove_lru_n3_mixed [5] => h_remove(3, tab_of(6), 40, 2); //@ q=C02,C04,C05,C06,C07,C20 to=600
     remove_mru_n3_mixed [5] => h_remove(3, tab_of(6), 40, 3); //@ q=C02,C04,C05,C06,C07,C20 to=600
     remove_n0 [3] => h_remove(0, tab_of(6), 40, 2); //@ q=C04 t=C02 to=600
-    remove_n4_mixed [6] => h_remove(4, tab_of(6), 40, 0); //@ t=C02,C04,C05,C06 to=900
-    get_n3_mixed [5] => h_access(3, tab_of(6), 0); //@ q=C04,C05,C07,C20 t=C01,C02 to=600
+    remove_n4_mixed [6] => h_remove(4, tab_of(6), 40, 0); //@ t=C04,C05,C06 to=900
+    get_n3_mixed [5] => h_access(3, tab_of(6), 0); //@ q=C04,C05,C07,C20 t=C01 to=600
     get_n3_collide [5] => h_access(3, tab_of(0), 0); //@ q=C04 t=C05,C07 to=600
     get_n3_seedtab [5] => h_access(3, tab_of(SEED_TAB), 0); //@ q=C04 t=C05 to=600
     remove_n3_seedtab [5] => h_remove(3, tab_of(SEED_TAB), 40, 0); //@ q=C04 t=C02 to=600
